@@ -53,10 +53,12 @@ ASSUMES = ["request keys and ranges outside '__oxia/' (user_request) and notific
            "the quorum commit offset handed to a new subscriber's dummy batch is an input of the model (C08 owns it)"]
 RULE = ("db leg (nseq): one case = 12-42 requests against a fresh real kv.DB (plain/conditional/session/indexed/sequence puts, deletes, delete-ranges incl. "
         "colliding start keys, session create/close, failing requests), notifications toggled by UpdateTerm+EnableNotifications, trimming rounds at cut-offs "
-        "around stored timestamps, the dispatch loop from every kind of start offset, re-opens; 12% with non-monotone timestamps; the stored batch of every "
+        "around stored timestamps, trimming rounds of a shard idle beyond the retention during which a request commits (XW: fired when the trimmer creates "
+        "its write batch), the dispatch loop from every kind of start offset, re-opens; 12% with non-monotone timestamps; the stored batch of every "
         "request is compared with an independent reference and with the model, every changed record must be covered by its batch. leader leg (nseq): one case "
         "= 10-28 steps on a real LeaderController (writes, raw GetNotifications from every start offset, real client managers connecting / receiving k "
-        "batches / breaking / continuing, leader changes to a node replaying the log, trimming), timestamps as assigned by the leader; distinct by generator "
+        "batches / breaking / continuing, leader changes to a node replaying the log, trimming, a write committing inside a trimming round, a subscriber "
+        "behind a fully trimmed range that stays connected during 40 commits), timestamps as assigned by the leader; distinct by generator "
         "sub-seed. uncommitted leg: rf=2, 1-4 entries appended but not acknowledged, then 30000 single writes under one waiting subscriber (every batch must "
         "arrive before the next write). realclient leg: newNotifications with its retry loop on the O-17 scenario.")
 LEGS = [
